@@ -83,6 +83,9 @@ def run_one(ctl: explorer.Ctl, cfg: Dict[str, Any]) -> Dict[str, Any]:
     def on_stdin(data: bytes):
         # the scripted server: answer a request line
         if b'"method":"initialize"' in data or b'"method": "initialize"' in data:
+            if cfg.get("mute_init"):
+                info["handshake_pending"] = True  # the server never answers initialize
+                return
             import json as _json
             try:
                 rid = _json.loads(data.decode("utf-8").strip().splitlines()[0]).get("id")
@@ -171,6 +174,25 @@ def run_one(ctl: explorer.Ctl, cfg: Dict[str, Any]) -> Dict[str, Any]:
                     read, write = await tr.get_streams()
                     info["entered"] = loop.time()
                     await body(read, write)
+            elif entry == "reuse-client":
+                from chuk_mcp.transports.stdio.stdio_client import StdioClient
+
+                client = StdioClient(seams.stdio_params())
+                async with client:      # an earlier, uneventful connection through the same object
+                    await q.settle()
+                info["first_conn_calls"] = [c[0] for c in first_proc.calls]
+                async with client:
+                    read, write = client.get_streams()
+                    info["entered"] = loop.time()
+                    await body(read, write)
+            elif entry == "connect_to_server":
+                from chuk_mcp.client.connection import connect_to_server
+                from chuk_mcp.transports.stdio.transport import StdioTransport
+
+                async with connect_to_server(StdioTransport(seams.stdio_params())) as mcp_client:
+                    read, write = mcp_client._streams
+                    info["entered"] = loop.time()
+                    await body(read, write)
             elif entry == "with_initialize":
                 from chuk_mcp.transports.stdio.stdio_client import stdio_client_with_initialize
 
@@ -184,7 +206,12 @@ def run_one(ctl: explorer.Ctl, cfg: Dict[str, Any]) -> Dict[str, Any]:
 
     spawn_state = {}
 
+    first_proc = seams.FakeProcess()
+
     def _factory(cmd, kw):
+        if cfg.get("entry") == "reuse-client" and not spawn_state.get("first_done"):
+            spawn_state["first_done"] = True
+            return first_proc
         return proc
 
     async def main():
@@ -279,11 +306,11 @@ def run_one(ctl: explorer.Ctl, cfg: Dict[str, Any]) -> Dict[str, Any]:
 
     if status != "ok":
         obs["outcome"] = status
-        bad("did-not-finish", f"execution ended with {status}: {val!r}", status=status)
+        bad("did-not-finish", f"execution ended with {status}: {core.clean_repr(val)}", status=status)
         obs["violations"] = viol
         return obs
     pp = info["pp"]
-    if len(pp.spawned) != 1 and not info.get("never_spawned_ok"):
+    if len(pp.spawned) != (2 if cfg.get("entry") == "reuse-client" else 1) and not info.get("never_spawned_ok"):
         raise core.HarnessError("seam missing: stdio_client did not call anyio.open_process")
     if not pp.spawned:
         # cancelled while the spawn was still in progress: there is no child, nothing else to judge
@@ -352,7 +379,7 @@ async def _wait_blocked(q, info, task):
     """Wait (in virtual quiescence steps) until the body is parked at its moment."""
     for _ in range(200):
         await q.settle()
-        if info.get("blocked_in_sleep") or info.get("blocked_in_request"):
+        if info.get("blocked_in_sleep") or info.get("blocked_in_request") or info.get("handshake_pending"):
             # let the conversation run on for a while (a flooding child fills the 100-slot buffer)
             await asyncio.sleep(1.5)
             await q.settle()
@@ -416,6 +443,22 @@ def configs_for(tier: str):
     for td, kd, e, m in itertools.product(delays_t, delays_k, exits, moments):
         for o in ("fifo", "lifo"):
             timing.append({"behaviour": "well", "exit": e, "moment": m, "term_delay": td, "kill_delay": kd, "order": o})
+    # the same client object used for a second connection; the high-level connect_to_server() context
+    for b in ("well", "ignore-term", "ignore-both", "stdout-flood", "stdin-blocks", "exit-on-request"):
+        for e in EXITS:
+            for m in MOMENTS:
+                for o in ("fifo", "lifo"):
+                    base.append({"behaviour": b, "exit": e, "moment": m, "order": o, "entry": "reuse-client"})
+    for b in ("well", "ignore-term", "ignore-both", "stdout-flood", "slow-start"):
+        for e in EXITS:
+            for m in MOMENTS:
+                for o in ("fifo", "lifo"):
+                    base.append({"behaviour": b, "exit": e, "moment": m, "order": o, "entry": "connect_to_server"})
+        # left while the handshake itself is still waiting for the server's answer
+        for e in ("task-cancel", "scope-cancel", "fail-after"):
+            for o in ("fifo", "lifo"):
+                base.append({"behaviour": b, "exit": e, "moment": "before-first", "order": o, "entry": "connect_to_server",
+                             "mute_init": True})
     # every behaviour combined with a child that ignores SIGTERM / both signals
     for sig in ("ignore-term", "ignore-both"):
         for b in BEHAVIOURS:
